@@ -26,7 +26,14 @@ var repoDir = func() string {
 	}
 	return "/repo"
 }()
-const verifDir = "/verif"
+// verifDir is /verif; VERIF_DIR (development only, never set by a registered command) lets a
+// background run work from a snapshot of the committed tree while /verif is being edited.
+var verifDir = func() string {
+	if d := os.Getenv("VERIF_DIR"); d != "" {
+		return d
+	}
+	return "/verif"
+}()
 const modPath = "github.com/openacid/slim"
 
 var harnessPkgs = []string{"trie", "array", "encode", "index"}
